@@ -256,7 +256,7 @@ def run(tier, seed):
     bdir = build.build("asan")
     chk = core.Check(PID, tier, seed)
     rd = core.record_dir(PID) if tier == "thorough" else None
-    sh = core.parallel(shard_fn, seed=seed, tier=tier, exe=bdir + "/jcdrv", ncases=200000 if tier == "quick" else 4000000)
+    sh = core.parallel(shard_fn, seed=seed, tier=tier, exe=bdir + "/jcdrv", ncases=800000 if tier == "quick" else 24000000)
     chk.absorb(sh)
     if rd:
         os.environ.pop("VF_RECORD_DIR", None)
